@@ -254,24 +254,24 @@ def run(rep: Report, prog: Program, tier: str) -> None:
         return o
     big32, big16 = 0xFFFFFFFE, 0xFFFE
     reps: List[Tuple[str, Any]] = []
-    for fl in (0, 3, 7):
-        for ud in (b"x", b"abcd", b"abcde", bytes(range(13))):
+    for fl in (0, 3, 7, 0x0B, 0x80, 0xFF):     # every flag value is in the wire range: the reserved bits (e.g. the I bit, 0x08) come back as they were sent
+        for ud in (b"x", b"abcd", b"abcde", bytes(range(13))) if fl <= 7 else (b"abcde",):
             reps.append((f"DataChunk flags={fl} len={len(ud)}", chunk("DataChunk", flags=fl, tsn=big32, stream_id=big16, stream_seq=1, protocol=51, user_data=ud)))
     for cls in ("InitChunk", "InitAckChunk"):
         for params in ([], [(7, b"cookie")], [(7, b"cookie12"), (0x8008, b"\xc0"), (9, b"")]):
             reps.append((f"{cls} {len(params)} params", chunk(cls, flags=0, initiate_tag=big32, advertised_rwnd=131072, outbound_streams=big16, inbound_streams=2,
                                                                initial_tsn=1, params=list(params))))
-    for fl in (0, 1):
-        for gaps, dups in (([], []), ([(2, 3)], []), ([(2, 3), (5, 5), (7, 65535)], [1, big32, 3]), ([], [9])):
+    for fl in (0, 1, 0xFF):
+        for gaps, dups in (([], []), ([(2, 3)], []), ([(2, 3), (5, 5), (7, 65535)], [1, big32, 3]), ([], [9])) if fl <= 1 else (([(2, 3)], [4]),):
             reps.append((f"SackChunk flags={fl} gaps={len(gaps)} dups={len(dups)}", chunk("SackChunk", flags=fl, cumulative_tsn=big32, advertised_rwnd=7, gaps=list(gaps), duplicates=list(dups))))
     for streams in ([], [(1, 2)], [(1, 2), (big16, 0), (3, 4)]):
         reps.append((f"ForwardTsnChunk {len(streams)} streams", chunk("ForwardTsnChunk", flags=0, cumulative_tsn=big32, streams=list(streams))))
     reps.append(("ShutdownChunk", chunk("ShutdownChunk", flags=0, cumulative_tsn=big32)))
     for cls in ("AbortChunk", "ErrorChunk", "HeartbeatChunk", "HeartbeatAckChunk", "ReconfigChunk"):
-        for fl, params in ((0, []), (1, [(1, b"abc")]), (0, [(13, b"abcd"), (16, b""), (14, b"abcdefg")])):
+        for fl, params in ((0, []), (1, [(1, b"abc")]), (0, [(13, b"abcd"), (16, b""), (14, b"abcdefg")]), (0xFE, [(1, b"abc")])):
             reps.append((f"{cls} flags={fl} {len(params)} params", chunk(cls, flags=fl, params=list(params))))
     for cls in ("CookieEchoChunk", "CookieAckChunk", "ShutdownAckChunk", "ShutdownCompleteChunk"):
-        for fl, body in ((0, b""), (1, b"cookie!"), (0, b"12345678")):
+        for fl, body in ((0, b""), (1, b"cookie!"), (0, b"12345678"), (0x80, b"cookie!")):
             reps.append((f"{cls} flags={fl} body={len(body)}", chunk(cls, flags=fl, body=body)))
     seen_cls = set()
     for label, c in reps:
